@@ -940,4 +940,231 @@ theorem runSpec_length (cap : Int) (l : List Item) (ops : List QOp) (h : (l.leng
   | nil => exact h
   | cons o rest ih => exact ih _ (stepSpec_length cap l o h)
 
+/-! ### arrival indices: the reference run with every item stamped by the op that admitted it -/
+
+abbrev SItem := Nat × Item
+
+/-- walk-order relation: higher score first; among equal scores the earlier arrival first -/
+def Rank (a b : SItem) : Prop := a.2.score > b.2.score ∨ (a.2.score = b.2.score ∧ a.1 < b.1)
+
+def stampInsert (l : List SItem) (k : Nat) (it : Item) : List SItem :=
+  l.takeWhile (fun x => decide (x.2.score ≥ it.score)) ++ (k, it) :: l.dropWhile (fun x => decide (x.2.score ≥ it.score))
+
+/-- `specPush` on stamped items; an admitted item gets the index `k` of the current op -/
+def stampPush (cap : Int) (l : List SItem) (k : Nat) (it : Item) : List SItem :=
+  if l.any (fun x => decide (x.2.id = it.id)) then l
+  else if (l.length : Int) ≥ cap then
+    match l.getLast? with
+    | none => l
+    | some tail =>
+      if it.score > tail.2.score ∨ (it.score = tail.2.score ∧ it.cmpBig tail.2 = true) then
+        stampInsert l.dropLast k it
+      else l
+  else stampInsert l k it
+
+/-- `stepSpec` on stamped items -/
+def stampStep (cap : Int) (l : List SItem) (k : Nat) : QOp → List SItem
+  | .push it _ => stampPush cap l k it
+  | .remove id => l.eraseP (fun x => decide (x.2.id = id))
+
+def runStamped (cap : Int) (l : List SItem) (k : Nat) : List QOp → List SItem
+  | [] => l
+  | o :: rest => runStamped cap (stampStep cap l k o) (k + 1) rest
+
+theorem map_takeWhile_snd (l : List SItem) (p : Item → Bool) :
+    (l.takeWhile (fun x => p x.2)).map (·.2) = (l.map (·.2)).takeWhile p := by
+  induction l with
+  | nil => rfl
+  | cons a rest ih =>
+    simp only [List.takeWhile_cons, List.map_cons]
+    cases p a.2 <;> simp [ih]
+
+theorem map_dropWhile_snd (l : List SItem) (p : Item → Bool) :
+    (l.dropWhile (fun x => p x.2)).map (·.2) = (l.map (·.2)).dropWhile p := by
+  induction l with
+  | nil => rfl
+  | cons a rest ih =>
+    simp only [List.dropWhile_cons, List.map_cons]
+    cases p a.2 <;> simp [ih]
+
+theorem map_eraseP_snd (l : List SItem) (p : Item → Bool) :
+    (l.eraseP (fun x => p x.2)).map (·.2) = (l.map (·.2)).eraseP p := by
+  induction l with
+  | nil => rfl
+  | cons a rest ih =>
+    simp only [List.eraseP_cons, List.map_cons]
+    cases p a.2 <;> simp [ih]
+
+theorem map_dropLast_snd (l : List SItem) : l.dropLast.map (·.2) = (l.map (·.2)).dropLast := by
+  induction l with
+  | nil => rfl
+  | cons a rest ih =>
+    cases rest with
+    | nil => rfl
+    | cons b r => simp only [List.dropLast_cons₂, List.map_cons] at ih ⊢; rw [ih]
+
+theorem getLast?_map_snd (l : List SItem) : (l.map (·.2)).getLast? = l.getLast?.map (·.2) := by
+  induction l with
+  | nil => rfl
+  | cons a rest ih =>
+    cases rest with
+    | nil => rfl
+    | cons b r => simp only [List.map_cons, List.getLast?_cons_cons] at ih ⊢; exact ih
+
+theorem stampInsert_proj (l : List SItem) (k : Nat) (it : Item) :
+    (stampInsert l k it).map (·.2) = specInsert (l.map (·.2)) it := by
+  unfold stampInsert specInsert
+  rw [List.map_append, List.map_cons,
+    map_takeWhile_snd l (fun x => decide (x.score ≥ it.score)),
+    map_dropWhile_snd l (fun x => decide (x.score ≥ it.score))]
+
+theorem stampPush_proj (cap : Int) (l : List SItem) (k : Nat) (it : Item) :
+    (stampPush cap l k it).map (·.2) = (specPush cap (l.map (·.2)) it).1 := by
+  unfold stampPush specPush
+  rw [List.any_map, List.length_map, getLast?_map_snd]
+  have hany : (l.any ((fun x => decide (x.id = it.id)) ∘ fun x => x.2)) = l.any (fun x => decide (x.2.id = it.id)) := rfl
+  rw [hany]
+  by_cases h1 : l.any (fun x => decide (x.2.id = it.id)) = true
+  · simp only [h1, if_true]
+  · simp only [h1, Bool.false_eq_true, if_false]
+    by_cases h2 : (l.length : Int) ≥ cap
+    · simp only [h2, if_true]
+      cases hgl : l.getLast? with
+      | none => rfl
+      | some tail =>
+        simp only [Option.map_some]
+        by_cases h3 : it.score > tail.2.score ∨ (it.score = tail.2.score ∧ it.cmpBig tail.2 = true)
+        · simp only [h3, if_true]; rw [stampInsert_proj, map_dropLast_snd]
+        · simp only [h3, if_false]
+    · simp only [h2, if_false]; rw [stampInsert_proj]
+
+theorem stampStep_proj (cap : Int) (l : List SItem) (k : Nat) (o : QOp) :
+    (stampStep cap l k o).map (·.2) = (stepSpec cap (l.map (·.2)) o).1 := by
+  cases o with
+  | remove id =>
+    show (l.eraseP (fun x => decide (x.2.id = id))).map (·.2) = specRemove (l.map (·.2)) id
+    exact map_eraseP_snd l (fun x => decide (x.id = id))
+  | push it lvl => exact stampPush_proj cap l k it
+
+theorem rank_ge {a b : SItem} (h : Rank a b) : a.2.score ≥ b.2.score := by
+  rcases h with h | h <;> omega
+
+theorem stampInsert_rank (l : List SItem) (k : Nat) (it : Item) (hr : l.Pairwise Rank)
+    (hk : ∀ p ∈ l, p.1 < k) : (stampInsert l k it).Pairwise Rank := by
+  unfold stampInsert
+  have hsplit := List.takeWhile_append_dropWhile (p := fun x : SItem => decide (x.2.score ≥ it.score)) (l := l)
+  have hr' := hr
+  rw [← hsplit, List.pairwise_append] at hr'
+  have hA : ∀ x ∈ l.takeWhile (fun x => decide (x.2.score ≥ it.score)), x.2.score ≥ it.score ∧ x ∈ l := by
+    intro x hx; have := mem_takeWhile_imp hx; exact ⟨by simpa using this.1, this.2⟩
+  have hB : ∀ x ∈ l.dropWhile (fun x => decide (x.2.score ≥ it.score)), x.2.score < it.score := by
+    intro x hx
+    generalize hD : l.dropWhile (fun x => decide (x.2.score ≥ it.score)) = D at hx hr'
+    cases D with
+    | nil => cases hx
+    | cons d rest =>
+      have hhead := dropWhile_head_fails l d rest hD
+      have hds : d.2.score < it.score := by simpa using hhead
+      rcases List.mem_cons.mp hx with rfl | hx
+      · exact hds
+      · have := rank_ge ((List.pairwise_cons.mp hr'.2.1).1 x hx); omega
+  rw [List.pairwise_append]
+  refine ⟨hr'.1, ?_, ?_⟩
+  · rw [List.pairwise_cons]
+    exact ⟨fun b hb => Or.inl (hB b hb), hr'.2.1⟩
+  · intro a ha x hx
+    rcases List.mem_cons.mp hx with rfl | hx
+    · have := hA a ha
+      have hlt := hk a this.2
+      by_cases he : a.2.score = it.score
+      · exact Or.inr ⟨he, hlt⟩
+      · exact Or.inl (by simp only; omega)
+    · exact hr'.2.2 a ha x hx
+
+theorem mem_stampInsert {l : List SItem} {k : Nat} {it : Item} {p : SItem}
+    (h : p ∈ stampInsert l k it) : p = (k, it) ∨ p ∈ l := by
+  unfold stampInsert at h
+  rcases List.mem_append.mp h with h | h
+  · exact Or.inr (mem_takeWhile_imp h).2
+  · rcases List.mem_cons.mp h with h | h
+    · exact Or.inl h
+    · exact Or.inr ((List.dropWhile_sublist _).subset h)
+
+/-- members of the next state: old members, or the item pushed by this very op -/
+theorem mem_stampStep {cap : Int} {l : List SItem} {k : Nat} {o : QOp} {p : SItem}
+    (h : p ∈ stampStep cap l k o) : p ∈ l ∨ ∃ lvl, p.1 = k ∧ o = .push p.2 lvl := by
+  cases o with
+  | remove id => exact Or.inl (List.eraseP_sublist.subset h)
+  | push it lvl =>
+    have h : p ∈ stampPush cap l k it := h
+    unfold stampPush at h
+    split at h
+    · exact Or.inl h
+    · split at h
+      · split at h
+        · exact Or.inl h
+        · split at h
+          · rcases mem_stampInsert h with rfl | h
+            · exact Or.inr ⟨lvl, rfl, rfl⟩
+            · exact Or.inl ((List.dropLast_sublist _).subset h)
+          · exact Or.inl h
+      · rcases mem_stampInsert h with rfl | h
+        · exact Or.inr ⟨lvl, rfl, rfl⟩
+        · exact Or.inl h
+
+theorem stampStep_rank (cap : Int) (l : List SItem) (k : Nat) (o : QOp) (hr : l.Pairwise Rank)
+    (hk : ∀ p ∈ l, p.1 < k) : (stampStep cap l k o).Pairwise Rank := by
+  cases o with
+  | remove id => exact List.Pairwise.sublist List.eraseP_sublist hr
+  | push it lvl =>
+    show (stampPush cap l k it).Pairwise Rank
+    unfold stampPush
+    split
+    · exact hr
+    · split
+      · split
+        · exact hr
+        · split
+          · exact stampInsert_rank _ k it (List.Pairwise.sublist (List.dropLast_sublist _) hr)
+              (fun p hp => hk p ((List.dropLast_sublist _).subset hp))
+          · exact hr
+      · exact stampInsert_rank l k it hr hk
+
+/-- the stamped run: projection = reference run, walk order = `Rank`, and every stamp is the index
+of the `push` op (in the whole op list `pre ++ ops`) that admitted the item -/
+theorem runStamped_spec (cap : Int) (ops : List QOp) :
+    ∀ (pre : List QOp) (l : List SItem), l.Pairwise Rank → (∀ p ∈ l, p.1 < pre.length) →
+      (∀ p ∈ l, ∃ lvl, (pre ++ ops)[p.1]? = some (.push p.2 lvl)) →
+      (runStamped cap l pre.length ops).map (·.2) = (runSpec cap (l.map (·.2)) ops).1 ∧
+      (runStamped cap l pre.length ops).Pairwise Rank ∧
+      (∀ p ∈ runStamped cap l pre.length ops, ∃ lvl, (pre ++ ops)[p.1]? = some (.push p.2 lvl)) := by
+  induction ops with
+  | nil => intro pre l hr _ ho; exact ⟨rfl, hr, ho⟩
+  | cons o rest ih =>
+    intro pre l hr hk ho
+    have hassoc : (pre ++ [o]) ++ rest = pre ++ o :: rest := by simp
+    have hlen : (pre ++ [o]).length = pre.length + 1 := by simp
+    have hk' : ∀ p ∈ stampStep cap l pre.length o, p.1 < (pre ++ [o]).length := by
+      intro p hp
+      rw [hlen]
+      rcases mem_stampStep hp with h | ⟨_, h, _⟩
+      · have := hk p h; omega
+      · omega
+    have ho' : ∀ p ∈ stampStep cap l pre.length o, ∃ lvl, ((pre ++ [o]) ++ rest)[p.1]? = some (.push p.2 lvl) := by
+      intro p hp
+      rw [hassoc]
+      rcases mem_stampStep hp with h | ⟨lvl, h1, h2⟩
+      · exact ho p h
+      · refine ⟨lvl, ?_⟩
+        rw [h1, List.getElem?_append_right (Nat.le_refl _)]
+        simp [h2]
+    obtain ⟨i1, i2, i3⟩ := ih (pre ++ [o]) (stampStep cap l pre.length o)
+      (stampStep_rank cap l pre.length o hr hk) hk' ho'
+    rw [hlen] at i1 i2 i3
+    rw [hassoc] at i3
+    refine ⟨?_, i2, i3⟩
+    show (runStamped cap (stampStep cap l pre.length o) (pre.length + 1) rest).map (·.2) = _
+    rw [i1, stampStep_proj]
+    rfl
+
 end C24
